@@ -141,15 +141,17 @@ func runC19(c *Ctx) {
 				}
 			}
 		}
-		for _, r := range findInstrs(rv, isReturn) {
-			ret := r.(*ssa.Return)
-			if !isNilConst(ret.Results[0]) {
-				continue
-			}
-			okT := typIf != nil && typIf.Block().Succs[1].Dominates(r.Block())
-			okV := verIf != nil && verIf.Block().Succs[1].Dominates(r.Block())
-			c.check(okT, "R1", "version reply must be a VERSION packet", pos(r), "nil only after typ == SSH_FXP_VERSION", "recvVersion can succeed on a packet that is not SSH_FXP_VERSION")
-			c.check(okV, "R1", "version must be 3", pos(r), "nil only after version == 3", "recvVersion can succeed with a protocol version other than 3")
+		// a return that may deliver nil is reached only through the "is a VERSION packet" and the "version is 3" edges
+		// (path form: holds across the join that inlined or restructured code returns through)
+		mayReturnNil := func(in ssa.Instruction) bool {
+			r, ok := in.(*ssa.Return)
+			return ok && isReturn(in) && len(r.Results) == 1 && mayBeNilHere(r.Results[0])
+		}
+		{
+			okT := typIf != nil && onlyViaEdge(rv, typIf.Block(), 1, mayReturnNil)
+			okV := verIf != nil && onlyViaEdge(rv, verIf.Block(), 1, mayReturnNil)
+			c.check(okT, "R1", "version reply must be a VERSION packet", p.Pos(rv.Pos()), "nil only after typ == SSH_FXP_VERSION", "recvVersion can succeed on a packet that is not SSH_FXP_VERSION")
+			c.check(okV, "R1", "version must be 3", p.Pos(rv.Pos()), "nil only after version == 3", "recvVersion can succeed with a protocol version other than 3")
 		}
 		c.check(verChecked, "R1", "version decoded with the checked primitive", p.Pos(rv.Pos()), "unmarshalUint32Safe", "the version number is decoded without a length check")
 		// the true edges return errors
